@@ -182,8 +182,8 @@ def eval_tree(seq_py, seq_js, bare=None):
                     if text.strip():
                         out.append(("quiet-not-silent", sig, f"--quiet printed {text!r} although nothing is over 30"))
                     continue
-                if junk:
-                    out.append(("unparseable-output", sig, repr(junk[:3])))
+                # lines that are neither a listing row nor the summary (junk) are not judged: the property is about the rows,
+                # the summary count and --quiet silence; a reformatted row shows up as a missing row below
                 got = {f: [r for r in rows if r[0] == f] for f in want_rows}
                 extra = [r for r in rows if r[0] not in want_rows]
                 if extra:
